@@ -3,6 +3,8 @@ import Rtsp.Proofs.Life.MonitorProps
 import Rtsp.Proofs.Life.Fair
 import Rtsp.Proofs.Life.Client
 import Rtsp.Proofs.Life.SessClose
+import Rtsp.Proofs.Life.ClientFair
+import Rtsp.Proofs.Life.ExecEx
 /-
 # C13 — Close is complete; life-cycle callbacks are balanced and ordered
 
@@ -195,6 +197,15 @@ theorem close_terminates_fair (x : Exec) (hi : Inv (x.σ 0)) (hw : WgInv (x.σ 0
     ∃ n, (x.σ n).closeReturned = true ∧ (x.σ n).allDone :=
   Life.close_terminates_fair x hi hw (by rw [hi.cancelledIff]; exact hc) hf
 
+/-- non-vacuity of `close_terminates_fair`: a fair execution from a reachable state with a playing TCP
+session, `Close` called and not yet returned exists (ten shutdown steps with a racing packet callback, then
+stuttering); more generally every finite run that ends with `Close` returned extends to a fair execution
+(`Exec.ofList_fair`). -/
+theorem fair_execution_exists :
+    ∃ x : Exec, Inv (x.σ 0) ∧ WgInv (x.σ 0) ∧ (x.σ 0).closeCalled = true ∧ (x.σ 0).closeReturned = false ∧
+      (x.σ 0).nConns = 1 ∧ x.Fair :=
+  Life.fair_execution_exists
+
 /-- the environment cannot disable a shutdown step (used for part 3; stated for its own sake) -/
 theorem shutdown_steps_persist (st st' : State) (a b : Action) (e : Option Event) (hi : Inv st)
     (hc : st.cancelled = true) (hsrv : st.srvRunning = false) (h : step st b = some (st', e))
@@ -241,5 +252,29 @@ theorem client_close_terminates (as : List KAction) (k : Client) (tr : List Even
     ∃ bs k' tr', (∀ a, a ∈ bs → a.own = true) ∧ bs.length ≤ krank k ∧ krun k bs = some (k', tr') ∧
       k'.closeReturned = true :=
   kclose_path (krank k) (krun_sim kinv_init h).2 hc (Nat.le_refl _)
+
+/-- every sequence of own steps of the client is at most `krank` long, and one that cannot be extended has
+`Close` returned (no deadlock in `doClose`: reader and UDP listeners are joined, nothing waits for them) -/
+theorem client_close_own_paths (as : List KAction) (k : Client) (tr : List Event)
+    (h : krun {} as = some (k, tr)) (hc : k.closeCalled = true)
+    (bs : List KAction) (k' : Client) (tr' : List Event) (hown : ∀ a, a ∈ bs → a.own = true)
+    (hrun : krun k bs = some (k', tr')) :
+    bs.length ≤ krank k ∧ ((∀ a, a.own = true → kstep k' a = none) → k'.closeReturned = true) := by
+  have hb := kown_path_bounded hown hrun
+  refine ⟨by omega, fun hmax => ?_⟩
+  have hi' := (krun_sim (krun_sim kinv_init h).2 hrun).2
+  have hc' := krun_called hc hrun
+  cases hr : k'.closeReturned with
+  | true => rfl
+  | false =>
+    obtain ⟨a, ha, r, hen⟩ := kprogress hi' hc' hr
+    rw [hmax a ha] at hen
+    simp at hen
+
+/-- **`Client.Close` returns along every fair execution of the client model** (weak fairness of the own
+steps of `Client.run`/`doClose`; the server and the API user may do anything). -/
+theorem client_close_terminates_fair (x : KExec) (hi : KInv (x.σ 0)) (hc : (x.σ 0).closeCalled = true)
+    (hf : x.Fair) : ∃ n, (x.σ n).closeReturned = true :=
+  kclose_terminates_fair x hi hc hf
 
 end Rtsp.Life.C13
